@@ -11,3 +11,8 @@ import Spade.Properties.C02
 #print axioms Spade.sepBy_excludes
 #print axioms Spade.C02_euler_invariant_on_model
 #print axioms Spade.C02_insert_effect_on_model
+#print axioms Spade.C02_linv_of_checks
+#print axioms Spade.C02_links_of_linv
+#print axioms Spade.C02_links_invariant_insert
+#print axioms Spade.C02_links_invariant_on_model
+#print axioms Spade.C02_links_invariant_legalize
